@@ -18,6 +18,7 @@ POLY = 'crysp/poly.py'
 
 
 def run(ctx):
+    integrity(ctx, ['crysp/bits.py', 'crysp/poly.py'])
     ctx.rule('C16-R1 element-wise operator template')
     for name, op in (('__and__', '&'), ('__or__', '|'), ('__xor__', '^'), ('__add__', '+'), ('__sub__', '-')):
         cmp_fn(ctx, 'SubPoly.' + name, POLY, 'SubPoly.' + name, S.POLY_BINOP % (name, op))
